@@ -282,11 +282,14 @@ def lockmap(chk, P):
     # the callee assigns its three reference parameters from method[Position], method[Velocity], method[Acceleration]
     g = _one(chk, P, "SimTK::Motion::calcAllMethods")
     if g:
-        want = {"qMethod": "Position", "uMethod": "Velocity", "udotMethod": "Acceleration"}
+        # the three Method& parameters by position (q, u, udot), never by name
+        mp = [p_[0] for p_ in g.d.get("params", []) if "Method" in p_[1]]
+        want = dict(zip(mp, ("Position", "Velocity", "Acceleration"))) if len(mp) == 3 else {}
         got = {}
         for _, _, e in g.events(lambda e: e["k"] == "assign" and var_of(e["lhs"]) in want and e.get("rhs") is not None):
             got[var_of(e["lhs"])] = [_last(x) for x in sx_enums(e["rhs"])]
-        chk.judge(all(got.get(k) == [v] for k, v in want.items()), "LOCKMAP", "calcAllMethods:outputs", g.loc, "outputs %s (expected %s)" % (got, want))
+        chk.judge(bool(want) and all(got.get(k) == [v] for k, v in want.items()), "LOCKMAP", "calcAllMethods:outputs", g.loc,
+                  "the (q, u, udot) output parameters receive method[%s]" % ", ".join(got.get(k, ["?"])[0] for k in mp))
     # Ground / weld
     gw = implied_edges(f, [lambda c: isinstance(c, list) and c[0] in ("op", "opc") and c[1] == "==" and bool(sx_find(c, lambda y: y[0] == "gvar" and _last(y[1]) == "GroundIndex")),
                            lambda c: isinstance(c, list) and c[0] == "op" and c[1] == "==" and var_of(c[2]) in NQ and isinstance(c[3], list) and c[3][0] == "lit" and c[3][1] == "0"])
